@@ -1,15 +1,20 @@
-(* Executable glue for the comment correspondence: the primitive calls the harness logs from the
-   implementation, what it observed, and the checker evaluated by vm_compute. *)
+(* Executable glue for the comment correspondence: the calls the harness logs from the implementation (as `cop`s
+   on document + ownership table), what it observed, and the checkers evaluated by vm_compute:
+     check_case : the model, run from its own threaded state, returns what the implementation returned and is in
+                  the state the implementation is in (tokens, flags, the affected slot) after every call;
+     hyp_case   : every hypothesis of the C14 theorems holds where the theorem is used: Inv on the initial state,
+                  op_ok before every call, auto_ok before every call of a repeated auto_claim_comments once all
+                  comments are claimed, the adjacency shape before every unclaim+claim of a surrounding comment. *)
 From AB Require Import Prelude Comments.
 
-Inductive prim :=
-| PClaim (cur : option Z) (start : Z) (bw ign : bool) (ind : option bool)     (* _claim_comment *)
-| PClaimer (ph : Z) (items : list item) (mfirst mlast : Z) (flt : option (list Z))   (* _CommentClaimer.claim *)
-| PUnclaim (cur : option Z)                                                   (* unclaim_leading/trailing *)
-| PUnclaimInter (items : list item) (flt : option (list Z)).
-
-Record obs := mkobs { o_exc : Z; o_ret : list Z; o_items : list (bool * Z); o_after : list (Z * bool) }.
-Record ccase := mkccase { c_doc : doc; c_steps : list (prim * obs) }.
+(* o_order: token ids in store order after the call (None: same order as before it); o_claimed: ids of the
+   tokens whose claimed flag is set, in store order *)
+Record obs := mkobs { o_exc : Z; o_ret : list Z; o_items : list (bool * Z); o_order : option (list Z);
+                      o_claimed : list Z; o_slot : list Z }.
+(* k_mode: 0 plain, 1 = part of the second run of auto_claim_comments, 2 = unclaim_leading/trailing that is
+   followed by its claim, 3 = unclaim_interleaving_comments(cs) followed by claim_interleaving_comments(cs) *)
+Record step := mkstep { k_op : cop; k_obs : obs; k_mode : Z }.
+Record ccase := mkccase { c_doc : doc; c_table : table; c_hists : list (list step) }.
 
 Definition exn_code (e : exn) : Z :=
   match e with
@@ -21,43 +26,81 @@ Definition snap (d : doc) : list (Z * bool) := map (fun t => (t_id t, t_claimed 
 Definition zb_eqb (a b : Z * bool) := (fst a =? fst b) && Bool.eqb (snd a) (snd b).
 Definition bz_eqb (a b : bool * Z) := Bool.eqb (fst a) (fst b) && (snd a =? snd b).
 
-(* result of a primitive on the model: exception code, returned ids, item list afterwards, document *)
-Definition run_prim (d : doc) (p : prim) : Z * list Z * list (bool * Z) * doc :=
-  match p with
-  | PClaim cur start bw ign ind =>
-    match claim_comment cur d start bw ign ind with
-    | (Ok r, d') => (0, opt_list r, [], d')
-    | (Err e, d') => (exn_code e, [], [], d')
-    end
-  | PUnclaim cur =>
-    let '(r, _, d') := unclaim_comment cur d in (0, opt_list r, [], d')
-  | PClaimer ph items mf ml flt =>
-    match claimer_claim d ph items mf ml flt with
-    | (Ok (r, its), d') => (0, r, its, d')
-    | (Err e, d') => (exn_code e, [], map oitem_of items, d')
-    end
-  | PUnclaimInter items flt =>
-    match unclaim_inter d items flt with
-    | (Ok (r, its), d') => (0, r, its, d')
-    | (Err e, d') => (exn_code e, [], map oitem_of items, d')
-    end
+Definition is_inter (o : cop) : bool := match o with OS _ => false | _ => true end.
+Definition items_of_op (o : cop) : list oitem :=
+  match o with
+  | OClaimInter _ _ items _ _ _ | OUnclaimInter _ items _ => map oitem_of items
+  | _ => []
   end.
 
-Definition obs_ok (r : Z * list Z * list (bool * Z) * doc) (o : obs) : bool :=
-  let '(e, ret, its, d') := r in
-  (e =? o_exc o) && list_eqb Z.eqb ret (o_ret o) && list_eqb bz_eqb its (o_items o)
-  && list_eqb zb_eqb (snap d') (o_after o).
+Definition obs_ok (d0 : doc) (o : cop) (r : res (list Z * list oitem) * (doc * table)) (ob : obs) : bool :=
+  let '(x, (d', tb')) := r in
+  (match x with
+   | Ok (ret, its) => (o_exc ob =? 0) && list_eqb Z.eqb ret (o_ret ob)
+                      && (negb (is_inter o) || list_eqb bz_eqb its (o_items ob))
+   | Err e => (exn_code e =? o_exc ob) && (negb (is_inter o) || list_eqb bz_eqb (items_of_op o) (o_items ob))
+   end)
+  && list_eqb Z.eqb (map t_id d') (match o_order ob with Some l => l | None => map t_id d0 end)
+  && list_eqb Z.eqb (map t_id (filter t_claimed d')) (o_claimed ob)
+  && list_eqb Z.eqb (tget tb' (op_slot o)) (o_slot ob).
 
-Fixpoint run_steps (d : doc) (l : list (prim * obs)) : bool :=
+Fixpoint run_steps (st : doc * table) (l : list step) : bool :=
   match l with
   | [] => true
-  | (p, o) :: r => let x := run_prim d p in obs_ok x o && run_steps (snd x) r
+  | k :: r => let x := cstep_obs st (k_op k) in obs_ok (fst st) (k_op k) x (k_obs k) && run_steps (snd x) r
   end.
 
-(* hypotheses of the theorems, checked on every initial document: ids unique, placeholders are empty *)
-Fixpoint nodup_b (l : list Z) : bool :=
-  match l with [] => true | x :: r => negb (existsb (Z.eqb x) r) && nodup_b r end.
-Definition doc_ok (d : doc) : bool :=
-  nodup_b (map t_id d) && forallb (fun t => negb (is_ph t) || text_empty t) d.
+Definition restore_hyp (st : doc * table) (o : cop) (next : list step) : bool :=
+  match o, next with
+  | OS (UnclaimLead n), k :: _ =>
+    match k_op k with
+    | OS (ClaimLead n' start _ ind) =>
+      (n =? n') && match adjacent_comment (fst st) start true ind with
+                   | Some c => t_claimed c && list_eqb Z.eqb (tget (snd st) (SLead n)) [t_id c]
+                   | None => false end
+    | _ => false
+    end
+  | OS (UnclaimTrail n), k :: _ =>
+    match k_op k with
+    | OS (ClaimTrail n' start _ ind) =>
+      (n =? n') && match adjacent_comment (fst st) start false ind with
+                   | Some c => t_claimed c && list_eqb Z.eqb (tget (snd st) (STrail n)) [t_id c]
+                   | None => false end
+    | _ => false
+    end
+  | _, _ => false
+  end.
 
-Definition check_case (c : ccase) : bool := doc_ok (c_doc c) && run_steps (c_doc c) (c_steps c).
+(* hypotheses of inter_unclaim_claim at an unclaim_interleaving_comments(cs) that is followed by
+   claim_interleaving_comments(cs): the entries name block comments, the claimer gets the kept items and cs *)
+Definition restore_inter_hyp (st : doc * table) (o : cop) (next : list step) : bool :=
+  match o, next with
+  | OUnclaimInter r items flt, k :: _ =>
+    match k_op k, unclaim_inter (fst st) items flt with
+    | OClaimInter r' _ items2 _ _ (Some cs), (Ok (un, kept), _) =>
+      (r =? r') && refs_ok_b (fst st) items && list_eqb bz_eqb (map oitem_of items2) kept
+      && list_eqb Z.eqb cs un
+    | _, _ => false
+    end
+  | _, _ => false
+  end.
+
+Fixpoint hyp_steps (st : doc * table) (l : list step) : bool :=
+  match l with
+  | [] => true
+  | k :: r =>
+    op_ok st (k_op k)
+    && (if k_mode k =? 1 then negb (all_claimed_b (fst st)) || auto_ok st (k_op k) else true)
+    && (if k_mode k =? 2 then restore_hyp st (k_op k) r else true)
+    && (if k_mode k =? 3 then restore_inter_hyp st (k_op k) r else true)
+    && hyp_steps (snd (cstep_obs st (k_op k))) r
+  end.
+
+(* placeholders are empty (hypothesis of C04_text_unchanged); Inv (C14) *)
+Definition doc_ok (d : doc) : bool := forallb (fun t => negb (is_ph t) || text_empty t) d.
+
+Definition check_case (c : ccase) : bool :=
+  forallb (run_steps (c_doc c, c_table c)) (c_hists c).
+Definition hyp_case (c : ccase) : bool :=
+  doc_ok (c_doc c) && inv_b (c_doc c, c_table c) && forallb (hyp_steps (c_doc c, c_table c)) (c_hists c).
+Definition check_all (c : ccase) : bool := check_case c && hyp_case c.
